@@ -122,12 +122,18 @@ class DB:
                     tree = ast.parse(source, filename=path)
                 except SyntaxError as e:
                     raise AnalysisError("cannot parse %s: %s" % (path, e))
-                _drop_noops(tree)
                 m = Module(name, path, "mako/" + rel, source, tree)
                 self.modules[name] = m
-                self._index(m)
                 self._counts["files"] += 1
                 self._counts["lines"] += source.count("\n") + 1
+        # canonical form (engine/normalize.py): refactorings that preserve behaviour converge to one shape
+        from . import normalize
+        try:
+            self.normalize_stats = normalize.normalize_package({n: m.tree for n, m in self.modules.items()}, passes=os.environ.get("VERIF_NORMALIZE"))
+        except RecursionError:
+            raise AnalysisError("normalisation did not terminate")
+        for m in self.modules.values():
+            self._index(m)
 
     # ------------------------------------------------------------------
     def _index(self, m):
